@@ -2336,3 +2336,25 @@ func zzC05gTwoOutages() {
 }
 
 func zzC05gTwoOutagesDev1() { zzDeviations = 1; zzC05gTwoOutages() }
+
+// delay-bounded twins (generated list)
+func zzC15dKeepaliveEndToEndDev1() { zzDeviations = 1; zzC15dKeepaliveEndToEnd() }
+func zzC10aConnGuardsDev1() { zzDeviations = 1; zzC10aConnGuards() }
+func zzC16ReceiveDev1() { zzDeviations = 1; zzC16Receive() }
+func zzC03cMetadataOrderDev1() { zzDeviations = 1; zzC03cMetadataOrder() }
+func zzC10pPendingAtCloseDev1() { zzDeviations = 1; zzC10pPendingAtClose() }
+func zzC08cCloseBoundedDev1() { zzDeviations = 1; zzC08cCloseBounded() }
+func zzC08eUpstreamCloseBoundedDev1() { zzDeviations = 1; zzC08eUpstreamCloseBounded() }
+func zzC08e2CloseBoundExpiresDuringListDev1() { zzDeviations = 1; zzC08e2CloseBoundExpiresDuringList() }
+func zzC08fCallsBoundedByContextDev1() { zzDeviations = 1; zzC08fCallsBoundedByContext() }
+func zzC08gNoHeadOfLineBlockingDev1() { zzDeviations = 1; zzC08gNoHeadOfLineBlocking() }
+func zzC16eAbandonedCallDev1() { zzDeviations = 1; zzC16eAbandonedCall() }
+func zzC16fInboxFullDev1() { zzDeviations = 1; zzC16fInboxFull() }
+func zzC16gPollingReceiverDev1() { zzDeviations = 1; zzC16gPollingReceiver() }
+func zzC20iPoliciesWholeAPIDev1() { zzDeviations = 1; zzC20iPoliciesWholeAPI() }
+func zzC04eDownstreamLifeDev1() { zzDeviations = 1; zzC04eDownstreamLife() }
+func zzC04hReadDuringAckWriteDev1() { zzDeviations = 1; zzC04hReadDuringAckWrite() }
+func zzC03ePreregisteredDev1() { zzDeviations = 1; zzC03ePreregistered() }
+func zzC03fLaggingConsumerDev1() { zzDeviations = 1; zzC03fLaggingConsumer() }
+func zzC10g2NoGoroutineLeftAfterOutageDev1() { zzDeviations = 1; zzC10g2NoGoroutineLeftAfterOutage() }
+func zzC10g3BurstDuringCloseDev1() { zzDeviations = 1; zzC10g3BurstDuringClose() }
